@@ -210,6 +210,9 @@ pub fn run(ctx: &Ctx) -> Evidence {
             std::fs::remove_dir_all(&dir).ok();
             match out {
                 Err(why) => {
+                    if std::env::var("VERIF_C12_DEBUG").is_ok() {
+                        eprintln!("C12 debug: scenario {i} attempt {attempt} inconclusive: {why}");
+                    }
                     if attempt < 2 {
                         ev.count("inconclusive_first_attempts", 1);
                         continue;
